@@ -203,6 +203,22 @@ def split(vc, ss, sep, maxsplit=-1):
     raise Unsupported("split with maxsplit=%r" % (maxsplit,))
 
 
+def partition(vc, ss, sep):
+    """str.partition(sep) for sep == the structure's separator: (first chunk, sep or "", rest)"""
+    if sep != ss.sep:
+        raise Unsupported("partition(%r) on StructStr with separator %r" % (sep, ss.sep))
+    chunks = [c for c in ss.chunks if c[0] is not vc.F]
+    if not chunks:
+        return SymList([[vc.CT, ""], [vc.CT, ""], [vc.CT, ""]], is_tuple=True)
+    if vc.m.find(chunks[0][0]) is not vc.T:
+        raise Unsupported("partition(sep) with optional first chunk")
+    rest = StructStr(ss.sep, chunks[1:])
+    h = vc.m.NOT(none_present(vc, chunks[1:]))
+    mid = vc.mk_union([(h, sep), (vc.m.NOT(h), "")], sweep=False)
+    tail = vc.mk_union([(h, rest), (vc.m.NOT(h), "")], sweep=False)
+    return SymList([[vc.CT, chunks[0][1]], [vc.CT, mid], [vc.CT, tail]], is_tuple=True)
+
+
 def _const_parts(vc, v, sep):
     """v: concrete str or union of str; returns list of per-position Values if all leaves split into
     the same number of parts"""
